@@ -27,7 +27,7 @@
 (* control file + a memory image whose bytes disassemble into exactly these  *)
 (* statements.                                                               *)
 (***************************************************************************)
-EXTENDS Integers, Sequences, FiniteSets, TLC
+EXTENDS Integers, Sequences, FiniteSets, TLC, CtlDocDefs
 
 CONSTANTS MaxTop,      \* bound on the size of the range in bytes
           MaxBlocks, MaxSubs, MaxStmts,   \* bounds on the structure
@@ -41,11 +41,6 @@ CONSTANTS MaxTop,      \* bound on the size of the range in bytes
 VARIABLES blocks, subs, notes, dirs, igs, nons, top, ntok, closed
 vars == <<blocks, subs, notes, dirs, igs, nons, top, ntok, closed>>
 
-BlockTypes == {"b", "c", "g", "i", "s", "t", "u", "w"}
-SubTypes == {"B", "C", "S", "T", "W"}
-Bases == {"n", "b", "c", "d", "h", "m"}
-DefaultSub(bt) == CASE bt = "c" -> "C" [] bt = "s" -> "S" [] bt = "t" -> "T" [] bt = "w" -> "W" [] bt = "i" -> "I"
-                    [] OTHER -> "B"
 
 \* ---- statements -----------------------------------------------------------------------------
 P(n, b) == [n |-> n, b |-> b]
@@ -191,13 +186,6 @@ AddMultiLine(a, e, nw, nl, sh, dot) ==
   /\ notes' = Append(notes, [Note("M", a, Cm(nw, nl, sh, dot)) EXCEPT !.e = e])
   /\ ntok' = ntok + nw
   /\ UNCHANGED <<blocks, subs, dirs, igs, nons, top, closed>>
-
-DirKinds == {"label", "keep", "nowarn", "ssub", "isub", "rsub", "ofix", "bfix", "rfix", "rem", "refs", "if", "bytes",
-             "assemble", "equ", "set", "org", "start", "end", "replace", "writer", "defb", "defw", "defs", "expand",
-             "remote"}
-\* directives that skool2ctl/sna2skool place above the entry title when given at the entry address
-EntryDirKinds == {"assemble", "equ", "set", "org", "start", "end", "replace", "writer", "defb", "defw", "defs", "expand",
-                  "remote", "if", "bank", "rom"}
 
 \* k: "entry" (a kind of EntryDirKinds) or "instr" (any other kind); the harness picks the kind and its value
 AddDirective(a, k) ==
